@@ -10,6 +10,16 @@ COMMON_NOTE = ("Trusted base: pyvc engine (AST transform T1-T3 of the real sourc
                "lift to C), A3 (integer powers), A4 (path forking via z3), A5 (numpy shim contracts, listed per run in evidence.trusted_base). ")
 
 CLAIMED = {
+    "C14": dict(
+        category="proof",
+        text=("Kernel clause at a_em = 0 for ANY number of steps (loop invariants over a symbolic iteration count), QCD orders 1-4 x QED orders 1-2, generic beta coefficients: every step of "
+              "non_singlet_qed.exact equals the exact QCD non-singlet kernel of that step; every step of singlet_qed.eko_iterate (singlet and valence) exponentiates exactly "
+              "embed(L_S, 0, l_+) resp. diag(l_V, l_-) with the per-step exponents of the QCD singlet.eko_iterate (proved against the real QCD code), and the accumulated kernel keeps the block "
+              "structure: photon trivial and decoupled, Sigma_Delta / V / V_Delta follow ns+ / nsV / ns-."),
+        note=COMMON_NOTE + "exp_matrix through its contract on block-diagonal arguments (lemma); embedding structure of the inputs is C30; the end-to-end alpha_em -> 0 limit (numerical) is not claimed.",
+        technique="contract-based deductive verification: loop-invariant cuts + symbolic execution with exact normal form",
+        design_ref="DESIGN.md section 2, C14",
+    ),
     "C55": dict(
         category="proof",
         text=("Frame conditions by taint: the setting that does not apply is replaced by an object whose every use raises, and the real dispatch code runs on symbolic inputs along every "
